@@ -198,6 +198,8 @@ func (i *interpreter) resetPath() {
 	i.pools = map[*value][]value{}
 	i.depth = 0
 	i.chanSeq = 0
+	i.nowHook = nil
+	i.lastNow = nil
 }
 
 // runPath executes one path and classifies its end.
@@ -298,13 +300,15 @@ func (i *interpreter) makeViolation(tp targetPanic) *Violation {
 		}
 	}
 	for round := 0; !ok && round < 30; round++ {
-		model, ok = c.finalModel(extraTerms)
+		var r smt.Result
+		model, r = c.finalModel(extraTerms)
+		ok = r == smt.Sat
+		if r == smt.Unsat && len(c.pfCalls) > 0 {
+			// the facts about the real ParseFloat refute the candidate: not a violation
+			c.Refuted++
+			return nil
+		}
 		if !ok {
-			if round > 0 {
-				// the facts learned from the real ParseFloat refute the candidate: not a violation
-				c.Refuted++
-				return nil
-			}
 			break
 		}
 		newFact := false
